@@ -555,7 +555,8 @@ Var& Var::extend(const Var& v)
 	
 	if (_type == OBJ && v._type == OBJ) // v._o is only meaningful for an object
 	{
-		foreach2 (String& k, Var & x, *v._o)
+		Dic<Var> src = *v._o; // v may be a property of this value, replaced (and released) by the loop
+		foreach2 (String& k, Var & x, src)
 		{
 			if (x.ok())
 				(*_o)[k] = x;
